@@ -139,6 +139,10 @@ func genJSONObject(rt *rapid.T, depth int, label string) map[string]any {
 	m := map[string]any{}
 	for i := 0; i < n; i++ {
 		name := pick(rt, propNames, label+".pname")
+		if chance(rt, 8, label+".null") {
+			m[name] = nil // a property that is present with the value null
+			continue
+		}
 		m[name] = genJSONValue(rt, depth, label+"."+name)
 	}
 	return m
@@ -209,7 +213,7 @@ func genStartFeed(rt *rapid.T, r *Run) (Op, bool) {
 	if len(r.W.Feeds) >= 5 {
 		return Op{}, false
 	}
-	op := Op{K: "StartFeed", C: pickColl(rt, r.W, "sf.coll"), Arg: map[string]any{"keysOnly": chance(rt, 20, "sf.keysonly")}}
+	op := Op{K: "StartFeed", C: pickColl(rt, r.W, "sf.coll"), Arg: map[string]any{"keysOnly": chance(rt, 20, "sf.keysonly"), "backfill": chance(rt, 50, "sf.backfill")}}
 	if len(r.W.Handles) > 1 {
 		op.H = rapid.IntRange(0, len(r.W.Handles)-1).Draw(rt, "sf.h")
 	}
@@ -239,7 +243,8 @@ func genXBody(rt *rapid.T, small bool) []byte {
 	}
 }
 
-var sysXattrs = []string{"_sync", "_vv", "_mou"}
+// ("_sy" is a proper prefix of "_sync": names must be told apart as whole path components)
+var sysXattrs = []string{"_sync", "_vv", "_mou", "_sy"}
 var userXattrs = []string{"user", "u2"}
 var badXattrNames = []string{"a.b", "$doc", "x[0]", "]"}
 
@@ -699,7 +704,7 @@ func genOp1(rt *rapid.T, w *World, pr *Profile) Op {
 		op.Cb = weighted(rt, map[string]int{"set": 75, "error": 10, "retry": 15}, "wu.cb")
 		op.Exp = genExp(rt, pr.ExpW)
 		op.Prev = weighted(rt, map[string]int{"": 60, "current": 25, "stale": 15}, "wu.prev")
-		op.XKeys = []string{"_sync", "_vv", "_mou", "user", "u2"}
+		op.XKeys = []string{"_sync", "_vv", "_mou", "_sy", "user", "u2"}
 		op.PreserveExp = chance(rt, 25, "preserve")
 		op.Tomb = chance(rt, 25, "wu.tomb")
 		op.X = genXattrSet(rt, 0, 2, false)
@@ -803,6 +808,18 @@ func genSubdocPath(rt *rapid.T, p St) string {
 	var doc map[string]any
 	if p.HasBody() {
 		_ = json.Unmarshal(p.Body, &doc)
+	}
+	// a path that leads through a property which is there but is not an object (null, number, string,
+	// array): the write must be refused, not reported as done
+	var scalars []string
+	for k, v := range doc {
+		if _, isObj := v.(map[string]any); !isObj {
+			scalars = append(scalars, k)
+		}
+	}
+	sort.Strings(scalars)
+	if len(scalars) > 0 && chance(rt, 12, "sd.through") {
+		return pick(rt, scalars, "sd.scalar") + "." + pick(rt, propNames, "sd.leaf")
 	}
 	depth := rapid.IntRange(1, 3).Draw(rt, "sd.depth")
 	var comps []string
